@@ -16,7 +16,7 @@ impl BlockUnclesVerifier {
             .collect();
 
         if expected_ids.len() != uncles.len() {
-            StatusCode::BlockUnclesLengthIsUnmatchedWithPendingCompactBlock.with_context(format!(
+            return StatusCode::BlockUnclesLengthIsUnmatchedWithPendingCompactBlock.with_context(format!(
                 "Expected({}) != actual({})",
                 expected_ids.len(),
                 uncles.len(),
